@@ -4,8 +4,8 @@ import json, os, re, subprocess, sys, time, hashlib, random, shutil, tempfile, g
 
 ROOT = os.path.dirname(os.path.dirname(os.path.abspath(__file__)))
 REPO = os.environ.get("VERIF_REPO", "/repo")
-BUILD = os.path.join(ROOT, "build")
-BIN = os.path.join(BUILD, "bin")
+BUILD = os.environ.get("VERIF_BUILD", os.path.join(ROOT, "build"))
+BIN = os.path.join(ROOT, "build", "bin")   # extracted model binaries do not depend on /repo
 TARGET = os.path.join(BUILD, "target")
 COQ = os.path.join(ROOT, "coq")
 EVID = os.path.join(ROOT, "evidence")
@@ -44,7 +44,19 @@ def log(*a):
 # ---------------------------------------------------------------------------------------------
 # Coq
 # ---------------------------------------------------------------------------------------------
+def write_coqproject():
+    """_CoqProject lists every .v file under coq/theories (so nobody edits it by hand)."""
+    files = sorted(os.path.relpath(p, COQ) for p in glob.glob(os.path.join(COQ, "theories", "**", "*.v"), recursive=True))
+    txt = ("-Q theories XV\n-arg -w -arg -notation-overridden,-deprecated-hint-without-locality,-deprecated-instance-without-locality\n"
+           + "\n".join(files) + "\n")
+    proj = os.path.join(COQ, "_CoqProject")
+    if not os.path.exists(proj) or open(proj).read() != txt:
+        with open(proj, "w") as fh:
+            fh.write(txt)
+
+
 def coq_makefile():
+    write_coqproject()
     mk = os.path.join(COQ, "Makefile")
     proj = os.path.join(COQ, "_CoqProject")
     if not os.path.exists(mk) or os.path.getmtime(mk) < os.path.getmtime(proj):
@@ -221,12 +233,32 @@ def cargo_env():
     return {"RUSTFLAGS": HOOK_RUSTFLAGS, "CARGO_TARGET_DIR": TARGET}
 
 
+def harness_dir():
+    """the harness crate is instantiated under BUILD with its path dependencies pointing at REPO
+    (normally /repo; a scratch worktree when VERIF_REPO is set)."""
+    h = os.path.join(BUILD, "harness")
+    os.makedirs(h, exist_ok=True)
+    src = os.path.join(h, "src")
+    want = os.path.join(ROOT, "harness", "src")
+    if os.path.islink(src) and os.readlink(src) != want:
+        os.unlink(src)
+    if not os.path.exists(src):
+        os.symlink(want, src)
+    toml = open(os.path.join(ROOT, "harness", "Cargo.toml")).read().replace("/repo/", REPO.rstrip("/") + "/")
+    tp = os.path.join(h, "Cargo.toml")
+    if not os.path.exists(tp) or open(tp).read() != toml:
+        open(tp, "w").write(toml)
+    os.makedirs(os.path.join(h, ".cargo"), exist_ok=True)
+    open(os.path.join(h, ".cargo", "config.toml"), "w").write("[net]\noffline = true\n")
+    shutil.copyfile(os.path.join(REPO, "Cargo.lock"), os.path.join(h, "Cargo.lock"))
+    return h
+
+
 def ensure_harness(bins):
     """cargo build of the harness binaries against /repo's working tree, hooks on."""
-    h = os.path.join(ROOT, "harness")
-    shutil.copyfile(os.path.join(REPO, "Cargo.lock"), os.path.join(h, "Cargo.lock"))
+    h = harness_dir()
     args = " ".join("--bin " + b for b in bins)
-    rc, out = sh("cargo build --offline %s" % args, cwd=h, env=cargo_env(), timeout=3000)
+    rc, out = sh("cargo build --offline --ignore-rust-version %s" % args, cwd=h, env=cargo_env(), timeout=3000)
     if rc != 0:
         raise BuildError("harness build failed:\n" + out[-4000:])
     return {b: os.path.join(TARGET, "debug", b) for b in bins}
@@ -234,7 +266,7 @@ def ensure_harness(bins):
 
 def ensure_xvc():
     """hook-instrumented xvc binary built from /repo's working tree."""
-    rc, out = sh("cargo build --offline -p xvc --bin xvc", cwd=REPO, env=cargo_env(), timeout=3000)
+    rc, out = sh("cargo build --offline --ignore-rust-version -p xvc --bin xvc", cwd=REPO, env=cargo_env(), timeout=3000)
     if rc != 0:
         raise BuildError("xvc build failed:\n" + out[-4000:])
     return os.path.join(TARGET, "debug", "xvc")
